@@ -63,7 +63,10 @@ func runC05(c *mon.Case) {
 			if r.plain != "" {
 				c.Shard.Violate("plaintext-at-relay", r.plain, r.rep)
 			}
-			if !r.completed && r.safety == "" {
+			if r.desync && r.safety == "" {
+				// the recorded state is permanent: no repetition needed
+				c.Shard.Violate("pairing-desync", fmt.Sprintf("after relay faults ceased the transfer neither completed nor failed visibly within 180 s: the client completed the first handshake and moved to the key-derived rendezvous, the server did not complete it (act three lost or late) and stays on the passphrase rendezvous: %s", r.progress), r.rep)
+			} else if !r.completed && r.safety == "" {
 				// progress verdicts in real time: re-run alone, generously
 				r2 := c05Session(seeds[i], 300*time.Second)
 				switch {
